@@ -283,6 +283,32 @@ func init() {
 				}
 				_ = re.GetGroupNames()
 				_ = re.GetGroupNumbers()
+				// "any option combination" includes the resource options: the same pattern on a FRESH Regexp whose backtracking
+				// stack is capped (the first scan of a new interpreter state allocates under the cap); the only new
+				// outcome allowed is ErrBacktrackingStackLimit
+				lim := []int{24, 40, 64, 100, 353, 1000}[(h+k)%6]
+				for ii, input := range append(append([]string{}, tokenInputs[1:4]...), extra...) {
+					if ii >= 6 {
+						break
+					}
+					var lre *regexp2.Regexp
+					var lerr error
+					func() {
+						defer func() {
+							if p := recover(); p != nil {
+								report(tokMismatch{"robust.panic", pat, fmt.Sprintf("%q", pat), int(opt), fmt.Sprintf("Compile(OptionMaxBacktrackingStackSize(%d))", lim), "", fmt.Sprint(p)})
+							}
+						}()
+						lre, lerr = regexp2.Compile(pat, opt, regexp2.OptionMaxBacktrackingStackSize(lim))
+					}()
+					if lerr != nil || lre == nil {
+						break
+					}
+					lre.MatchTimeout = 15 * time.Millisecond
+					in := input
+					guard(fmt.Sprintf("MatchString [stack limit %d]", lim), in, opt, func() error { _, e := lre.MatchString(in); return e }, nil, nil)
+					guard(fmt.Sprintf("FindStringMatch [stack limit %d]", lim), in, opt, func() error { _, e := lre.FindStringMatch(in); return e }, nil, nil)
+				}
 			}
 		}
 		for i := 0; i < runtime.NumCPU(); i++ {
